@@ -383,7 +383,10 @@ class IndentationFitter(object):
         `self.fit_range` before the actual fitting.
         """
         model_key = self.fp["model_key"]
-        params_initial = self.fp["params_initial"]
+        # Work on a copy, so that the stored initial parameters (which
+        # may be an object of the caller) keep the contact point in
+        # measured units, also for multiple passes.
+        params_initial = copy.deepcopy(self.fp["params_initial"])
         # modify contact point with gcf_k
         cpi = params_initial["contact_point"].value
         params_initial["contact_point"].set(value=cpi * self.fp["gcf_k"])
